@@ -1,5 +1,6 @@
 import Req.Driver.Proto
 import Req.H1.Response
+import Req.H1.Conn
 import Req.C03.H2Cut
 import Req.C03.H2Pool
 import Req.C03.H3Cut
@@ -51,6 +52,32 @@ def laneCut : List String → String
           if mode == "early" then "ok-early code=" ++ toString m.sl.code ++ " dials=" ++ dials
           else if b.ok then "ok code=" ++ toString m.sl.code ++ " body=" ++ encodeHex b.data ++ " dials=" ++ dials
           else "fail dials=" ++ dials
+    | _, _ => "bad-op"
+  | _ => "bad-op"
+
+/-- `c03over <G|H> <hex segment> <hold|eof> <hex second>`: the peer answers the first request of a
+fresh client with `segment` (a complete response, possibly with unsolicited bytes behind it) and
+keeps the connection open (`hold`: it would answer further requests on it with `second`) or closes
+it (`eof`); every other connection answers with `second`.  Two requests through the Transport
+model of C04 (`Req.H1.transportRun`): both outcomes (status + body) and the number of dials. -/
+def renderOver : Delivery → String
+  | .fail => "fail"
+  | .resp m seen .eof _ => "ok code=" ++ toString m.sl.code ++ " body=" ++ encodeHex seen
+  | .resp _ _ .err _ => "fail"
+  | .resp _ _ .closed _ => "closed"
+  | .resp _ _ .raw _ => "raw"
+
+def laneOver : List String → String
+  | [meth, hex, mode, hex2] =>
+    match decodeHex hex, decodeHex hex2 with
+    | some seg, some second =>
+      if (meth != "G" && meth != "H") || (mode != "eof" && mode != "hold") then "bad-op" else
+      let q1 : ConnReq := ⟨meth == "H", false, false, .full⟩
+      let q : ConnReq := ⟨false, false, false, .full⟩
+      let sc1 : ConnScript := if mode == "eof" then ⟨[seg], true⟩ else ⟨[seg, second, second], false⟩
+      let sc2 : ConnScript := ⟨[second, second, second], false⟩
+      let (ds, n) := transportRun 4096 [q1, q] ⟨none, [sc1, sc2], 0⟩
+      " | ".intercalate (ds.map renderOver) ++ " dials=" ++ toString n
     | _, _ => "bad-op"
   | _ => "bad-op"
 
@@ -168,6 +195,7 @@ def laneGz : List String → String
 def lanes : List (String × (List String → String)) := [
   ("c03cut", laneCut),
   ("c03gz", laneGz),
+  ("c03over", laneOver),
   ("c03h2", laneH2),
   ("c03h3", laneH3)
 ]
